@@ -6,9 +6,18 @@ pub mod c03;
 pub mod c04;
 pub mod c06;
 pub mod c07;
+pub mod c08;
 pub mod c09;
+pub mod c10;
+pub mod c11;
+pub mod c12;
+pub mod c13;
 pub mod c05;
 
 pub fn all() -> Vec<&'static PropDef> {
-    vec![&c01::DEF, &c02::DEF, &c03::DEF, &c04::DEF, &c06::DEF, &c07::DEF, &c09::DEF, &c05::DEF]
+    vec![&c01::DEF, &c02::DEF, &c03::DEF, &c04::DEF, &c06::DEF, &c07::DEF, &c08::DEF, &c09::DEF, &c10::DEF, &c11::DEF, &c12::DEF, &c13::DEF, &c05::DEF]
+}
+
+pub fn c07_abbrev(a: &crate::spec::SAvp) -> crate::spec::SAvp {
+    c07::abbreviate(a)
 }
